@@ -221,7 +221,18 @@ def judge_cases(prop, spec, cases, res, shard_size=200, jobs=16, timeout=900):
     for f in os.listdir(CASES):
         if f.startswith("cases_%s_" % prop):
             os.unlink(os.path.join(CASES, f))
-    shards = [cases[i:i + shard_size] for i in range(0, len(cases), shard_size)]
+    # shards are cut by case count and by text size, so that heavy and light cases both spread over the cores
+    shards, cur, cur_bytes, starts = [], [], 0, []
+    for i, c in enumerate(cases):
+        if cur and (len(cur) >= shard_size or cur_bytes + len(c["coq"]) > 400000):
+            shards.append(cur)
+            cur, cur_bytes = [], 0
+        if not cur:
+            starts.append(i)
+        cur.append(c)
+        cur_bytes += len(c["coq"])
+    if cur:
+        shards.append(cur)
 
     def run(k):
         shard = shards[k]
@@ -239,7 +250,7 @@ def judge_cases(prop, spec, cases, res, shard_size=200, jobs=16, timeout=900):
         if not m or not t or int(t.group(1)) != len(shard):
             return k, None, out
         nums = [int(x) for x in re.findall(r"\d+", m.group(1))]
-        return k, [(k * shard_size + nums[i], nums[i + 1]) for i in range(0, len(nums), 2)], out
+        return k, [(starts[k] + nums[i], nums[i + 1]) for i in range(0, len(nums), 2)], out
 
     bad = []
     with ThreadPoolExecutor(max_workers=jobs) as ex:
